@@ -10,7 +10,7 @@ PROPS = "Props_C11"
 
 TYPES = {"*jsonrpc.JSONRPCError": (0, True), "main.plainVal": (1, False), "*main.plainPtr": (2, True), "*main.marshErr": (3, True),
          "*main.codecErr": (4, True), "*main.bothErr": (5, True), "*main.failUnmarshal": (6, True), "*main.failFrom": (7, True),
-         "main.valReg": (10, False), "*main.valReg": (10, True), "*main.dataErr": (13, True), "*main.emptyMsgErr": (14, True), "": (0, True)}
+         "main.valReg": (10, False), "*main.valReg": (10, True), "*main.dataErr": (13, True), "*main.emptyMsgErr": (14, True), "main.valCodec": (15, False), "": (0, True)}
 
 
 def tab(t):
